@@ -130,6 +130,15 @@ def genOps2 : List (String × R String) := [
       pure (ansG hex (do
         let v ← Gen.is_address_valid Crypto.sha256 b58dec ty pfx pfx s
         if v then Gen.address_to_hash160 b58dec s else throw PyErr.valueError))),
+  ("g:priv_init", do
+      -- PrivateKey.__init__: python-ecdsa's constructors replaced by their range checks, base58check by the Spec's
+      let pfx ← netPfx; let w ← optStr; let e ← optInt; let b ← optBytes
+      let dec := fun (x : String) => match Spec.B58.decode x with
+        | some d => (Except.ok d : Except PyErr Bytes) | none => .error .valueError
+      let sfs := fun (b : Bytes) => (Model.signingKeyFromString b).map (fun (n : Nat) => (n : Int))
+      let sfe := fun (e : Int) => (Model.signingKeyFromExponent e).map (fun (n : Nat) => (n : Int))
+      pure (ansG (fun (o : Option Int) => match o with | some d => hex (Py.beBytes 32 d.toNat) | none => "random")
+        (Gen.privkey_init Crypto.sha256 dec sfs sfe pfx w e b))),
   ("g:wif_enc", do
       let pfx ← netPfx; let d ← bytes; let c ← bool
       pure (ansG hexStr (Gen.to_wif Crypto.sha256 Spec.B58.encode pfx d c))),
